@@ -23,7 +23,7 @@ def scan_harnesses():
         module = stem.split("_")[0]
         src = open(path).read()
         src = re.sub(r"//[^\n]*", "", src)
-        for m in re.finditer(r"(?:\bfn\s+|!\s*[\(\{]\s*(?:#\[[^\]]*\]\s*)*(?:fn\s+)?)(c\d\d[a-z]?_\w+)", src):
+        for m in re.finditer(r"(?:\bfn\s+|!\s*[\(\{]\s*(?:#\[[^\]]*\]\s*)*(?:fn\s+)?)((?:c\d\d[a-z]?|x)_\w+)", src):
             out.setdefault(m.group(1), module)
     return out
 
